@@ -57,6 +57,7 @@ type Obligation struct {
 	Cover   bool // cover query: expected SAT
 	Result  *SolveResult
 	RawScript string // language obligations: a complete SMT-LIB script
+	SmallLen  int    // > 0: only counterexamples with sequence parameters up to this length are asked for
 	RawErr    string
 	Clause  *Clause // the contract clause behind an `ensures` obligation (for replay)
 	Case    *Term // case-split hypothesis (already part of the goal's guard); used to specialise the query by substitution
@@ -68,6 +69,7 @@ type ReturnPoint struct {
 }
 
 type Exec struct {
+	pureSpecDone map[*Term]bool
 	fdDone map[*Term]bool
 	puApps []puApp
 	recDefined map[string]bool
